@@ -3,6 +3,10 @@ from pyvc.runner import func
 
 UPDATE_ALL = [func("bt.core.StrategyBase.update", variant=v) for v in ("flat", "paper", "nested", "nested-paper")]
 
+from contracts.core_getters import getter_tasks
+
+GETTER_TASKS = getter_tasks()
+
 ID = "C08"
 META = {
     "assumptions": ['A-REAL', 'A-COMM', 'A-T', 'A-IND', 'A-DATA-NONE', 'A-CYTHON', 'A-SOLVER', 'A-ENGINE'],
@@ -10,13 +14,14 @@ META = {
 }
 MANIFEST_ENTRY = {
     "level_text": 'Deductive proof of the positional write frames and of security-level idempotence for all states.',
-    "level_note": "Reals not floats; idempotence of StrategyBase.update itself and freshness of the read accessors are planned next (DESIGN 4 C08 a,b) and not yet discharged.",
+    "level_note": "Reals not floats; every read accessor is verified (refresh iff pending, own series cut at own date); idempotence of StrategyBase.update itself (DESIGN 4 C08 a) is not yet discharged.",
     "technique": "contract-based deductive verification: VCs from the real AST (pyvc) discharged by z3/cvc5; loop invariants with ghost sums; lemmas over contract clauses",
 }
 
 
 def tasks(tier, seed):
     return [
+        *[func(q) for q in GETTER_TASKS],
         func("bt.backtest.Backtest.run"),
         func("bt.core.StrategyBase.flatten"),
         *UPDATE_ALL,
